@@ -471,6 +471,7 @@ type SolverResult struct {
 	Seconds float64
 	Output  string // full solver output (model / values / error)
 	All     map[string]string
+	Retried int // 0: decided in the first pass; n: decided in the n-th retry (longer time limit, other seeds)
 }
 
 type solverSpec struct {
@@ -489,6 +490,11 @@ var solverSem = make(chan struct{}, 16)
 // solve races the installed solvers on one query. A definite answer (unsat/sat) from any
 // solver wins; if wantAgree > 1 the call waits until that many solvers have said unsat.
 func solve(query string, timeout time.Duration, workdir string, tag string, wantAgree int) SolverResult {
+	return solveSeeded(query, timeout, workdir, tag, wantAgree, 0)
+}
+
+// solveSeeded: as solve, with the solvers' random seeds set (seed 0 = the solvers' defaults).
+func solveSeeded(query string, timeout time.Duration, workdir string, tag string, wantAgree int, seed int) SolverResult {
 	solverSem <- struct{}{}
 	defer func() { <-solverSem }()
 	f := queryFile(workdir, tag)
@@ -512,8 +518,14 @@ func solve(query string, timeout time.Duration, workdir string, tag string, want
 			switch sp.name {
 			case "z3", "z3-new":
 				args = append(args, fmt.Sprintf("-T:%d", int(timeout.Seconds())+1))
+				if seed != 0 {
+					args = append(args, fmt.Sprintf("smt.random_seed=%d", seed), fmt.Sprintf("sat.random_seed=%d", seed))
+				}
 			case "cvc5":
 				args = append(args, fmt.Sprintf("--tlimit=%d", timeout.Milliseconds()))
+				if seed != 0 {
+					args = append(args, fmt.Sprintf("--seed=%d", seed))
+				}
 			}
 			args = append(args, f)
 			cmd := exec.CommandContext(ctx, sp.args[0], args...)
